@@ -40,7 +40,7 @@ func runC13(c *Ctx) {
 		str := CallResult(urlArg, 0, "(*net/url.URL).String")
 		var ualloc *ssa.Alloc
 		if str != nil {
-			if rs := Roots(str.Call.Args[0]); len(rs) == 1 {
+			if rs := Roots(PArgs(&str.Call)[0]); len(rs) == 1 {
 				ualloc, _ = rs[0].(*ssa.Alloc)
 			}
 		}
@@ -193,10 +193,10 @@ func runC13(c *Ctx) {
 		if call == nil {
 			continue
 		}
-		pj := CallResult(CallOf(call).Args[1], 0, "path.Join")
+		pj := CallResult(PArgs(CallOf(call))[1], 0, "path.Join")
 		ok := false
 		if pj != nil {
-			for _, r := range Roots(pj.Call.Args[0]) {
+			for _, r := range Roots(PArgs(&pj.Call)[0]) {
 				if sl, isS := r.(*ssa.Slice); isS {
 					if arr, isA := sl.X.(*ssa.Alloc); isA {
 						for _, u := range Refs(arr) {
@@ -246,7 +246,7 @@ func runC13(c *Ctx) {
 					cond, trueSucc := BoolTest(g.If)
 					if hp := CallResult(cond, 0, "strings.HasPrefix"); hp != nil && g.Succ == trueSucc {
 						// the prefix is Clean("/"+shimPath)+"/"
-						pre := hp.Call.Args[1]
+						pre := PArgs(&hp.Call)[1]
 						okp := false
 						SliceBack(pre, func(v ssa.Value) bool {
 							if call, ok := v.(*ssa.Call); ok && CalleeName(call.Common()) == "path.Clean" {
@@ -254,7 +254,7 @@ func runC13(c *Ctx) {
 							}
 							return true
 						})
-						if PathOf(hp.Call.Args[0]) == P(disp, 1)+".URL.Path" && okp {
+						if PathOf(PArgs(&hp.Call)[0]) == P(disp, 1)+".URL.Path" && okp {
 							guard = true
 						}
 					}
